@@ -87,6 +87,8 @@ F22zero == MkT(O2, S2, <<<<0, 0>>, <<0, 0>>>>, NoMd, NoMd, "", "")
 \* only some observations carry the exported category
 F33part == MkT(O3, S3, <<<<1, 0, 2>>, <<0, 3, 4>>, <<5, 6, 0>>>>,
                MdRows(<< <<L1("taxonomy", <<"p", "q">>)>>, <<S1("k1", "x")>>, <<L1("taxonomy", <<"q">>)>> >>), NoMd, "", "")
+\* a hierarchical list whose last level is the empty text (TSV keeps it; HDF5 cannot: outside C01's domain)
+F22e == MkT(O2, S2, <<<<1, 2>>, <<0, 4>>>>, MdRows(<< <<L1("taxonomy", <<"p", "q", "">>)>>, <<L1("taxonomy", <<"p">>)>> >>), NoMd, "", "")
 F24frac == [MkT(O2, <<"s1", "s2", "s3", "s4">>, <<<<1, 0, 0, 2>>, <<0, 3, 0, 0>>>>, OMDtax, NoMd, "Ortholog table", "")
             EXCEPT !.mat = <<<<<<1, 2>>, Zero, Zero, <<-3, 4>>>>, <<Zero, <<5, 8>>, Zero, Zero>>>>]
 T23idext == Mk(<<"o1", "o2~0">>, S3, <<<<3, 1, 0>>, <<0, 5, 6>>>>, OMD2, NoMd, "OTU table")   \* an ID that extends another
